@@ -60,7 +60,8 @@ def build(patterns):
                     CaptionNode.create_text(f"{lang}{i}b"),
                 ]
             elif i % 3 == 1:
-                nodes = [CaptionNode.create_text(f"{lang}{i}a"), CaptionNode.create_break(), CaptionNode.create_text(f"{lang}{i}b")]
+                # ends with a line break (readers return such captions, e.g. DFXP <p>speaker:<br/></p>)
+                nodes = [CaptionNode.create_text(f"{lang}{i}a"), CaptionNode.create_break(), CaptionNode.create_text(f"{lang}{i}b"), CaptionNode.create_break()]
             else:
                 nodes = [CaptionNode.create_text(f"{lang}{i}")]
             cl.append(Caption(s, e, nodes))
